@@ -29,6 +29,7 @@ def run(ctx):
     ctx.sample({"trace_excerpt": [json.loads(x) for x in lines[0:6]]})
     ctx.validate("LifecycleTrace", t, keyfn, describe=describe, timeout=600, require_events=200)
     xportfam.quic_part(ctx, drv, "C18")
+    xportfam.pipe_part(ctx, drv, "C18")
     # router level: failing listener at every position, whole-router close
     rdrv = vf.build_driver("routerdrv")
     d = os.path.dirname(ctx.path("c18", "x"))
